@@ -104,9 +104,16 @@ def salt(S, obj, seq, rng, rep, k=None, cheap=False):
 def present(rng, seq):
     """A spelling of `seq` that the constructor normalises back to `seq`."""
     out = []
+    # sometimes exactly ONE residue type is typed in lower case (e.g. every proline: 'ApSpTK' is Ala-Pro-Ser-Pro-Thr-Lys)
+    only = rng.choice(sorted(set(seq))) if seq and rng.random() < 0.2 else None
+    if only is not None and "P" in seq and rng.random() < 0.5:
+        only = "P"
     for c in seq:
+        if only is not None:
+            out.append(c.lower() if c == only else c)
+            continue
         out.append(c.lower() if rng.random() < 0.3 else c)
-        if rng.random() < 0.1:
+        if rng.random() < (0.1 if only is None else 0.02):
             out.append(rng.choice([" ", "\n", "\t", "\r\n", "  "]))
     if rng.random() < 0.5:
         out.append("\n")
